@@ -6,6 +6,7 @@ import (
 	"fmt"
 	"go/token"
 	"go/types"
+	"os"
 	"sort"
 	"strings"
 
@@ -113,6 +114,11 @@ func (p *Program) verifyFunction(fn *ssa.Function, con *Contract) (res *FuncResu
 	// exits
 	sort.SliceStable(f.exits, func(i, j int) bool { return f.exits[i].Pos < f.exits[j].Pos })
 	nret := 0
+	if os.Getenv("GOVC_DEBUG") != "" {
+		for _, e := range f.exits {
+			fmt.Fprintf(os.Stderr, "exit panic=%v retidx=%d cond=%s pos=%s\n", e.Panic, e.RetIdx, e.Cond, f.pos(e.Pos))
+		}
+	}
 	for _, e := range f.exits {
 		if e.Panic {
 			f.checkPanicExit(e)
@@ -120,6 +126,18 @@ func (p *Program) verifyFunction(fn *ssa.Function, con *Contract) (res *FuncResu
 		}
 		nret++
 		f.checkReturn(e)
+	}
+	// an anchor of the contract that matched no program point: its hints / assertions were silently skipped,
+	// which would make the contract vacuous there -> an obligation of its own
+	var anchors []string
+	for a, hs := range con.Hints {
+		if len(hs) > 0 && !vc.usedAnchors[a] && a != "panic" {
+			anchors = append(anchors, a)
+		}
+	}
+	sort.Strings(anchors)
+	for _, a := range anchors {
+		vc.oblige("assert", fmt.Sprintf("%s#anchor:%s/stale", name, a), "true", vc.freshConst("stale", "Bool"), f.pos(fn.Pos()), "the contract has clauses anchored at '"+a+"', which matches no program point of this function any more")
 	}
 	res.Obligs = vc.obligs
 	for k := range vc.inlined {
@@ -186,6 +204,9 @@ func (f *Frame) checkReturn(e Exit) {
 		henv.vars[k] = v
 	}
 	for _, key := range []string{anchor, "return"} {
+		if len(con.Hints[key]) > 0 {
+			f.vc.usedAnchors[key] = true
+		}
 		for _, h := range con.Hints[key] {
 			if h.Kind == "set" || h.Kind == "setdef" {
 				f.execSet(h, e.Cond, e.St, henv)
@@ -243,6 +264,7 @@ func (f *Frame) checkPanicExit(e Exit) {
 	name := shortFn(f.fn)
 	tag := f.exitSite(e)
 	if strings.HasPrefix(e.Desc, "explicit panic") {
+		f.vc.usedAnchors["panic"] = true
 		for _, h := range con.Hints["panic"] {
 			// 'at panic assert e': holds whenever one of the function's own panic statements (or one of an
 			// inlined callee) is reached; panics propagated from contracted callees are described by those contracts
